@@ -49,6 +49,10 @@ pub fn replay(path: &str) -> i32 {
         "C02" => c02::replay(&v["replay"]),
         "C18" => c18::replay(&v["replay"]),
         "C03" => c03::replay(&v["replay"]),
+        "C01" => c01::replay(&v["replay"]),
+        "C05" => c05::replay(&v["replay"]),
+        "C08" => c08::replay(&v["replay"]),
+        "C09" => c09::replay(&v["replay"]),
         _ => {
             println!("{}", serde_json::to_string_pretty(&v).unwrap());
             crate::elog!("no executable replay for {}; the file lists the literal inputs", id);
